@@ -196,14 +196,19 @@ class Gen:
     def cond(self):
         r = self.r
         c = r.random()
-        if "sha3" in self.f and c < 0.25:
+        if "sha3" in self.f and c < (0.6 if "hashcond" in self.f else 0.25):
             # the overflow check solc emits for a dynamic array element: keccak(slot) + index (+ c) < keccak(slot)
             slot = r.choice([0, 1, 2])
             h = [("push", slot), "PUSH0", "MSTORE", ("push", 32), "PUSH0", "SHA3"]
             idx = self.arg() + ([("push", r.choice([1, 5, 32])), "ADD"] if r.random() < 0.6 else [])
             if r.random() < 0.5:
                 idx = [("push", r.choice([1, 2, 8]))] + idx + ["ADD"]
-            return h + h + idx + ["ADD", r.choice(["LT", "GT"])]
+            if r.random() < 0.5:
+                return h + h + idx + ["ADD", r.choice(["LT", "GT"])]
+            # the same check for an element of a mapping value: keccak(key . slot) with a symbolic key
+            other = [("push", 4 + 32 * ((self.r.randrange(self.nargs) if self.nargs else 0))), "CALLDATALOAD"]
+            hk = other + ["PUSH0", "MSTORE", ("push", slot), ("push", 32), "MSTORE", ("push", 64), "PUSH0", "SHA3"]
+            return hk + hk + idx + ["ADD", r.choice(["LT", "GT"])]
         if c < 0.6:
             return self.expr(1) + self.expr(1) + [r.choice(["LT", "GT", "SLT", "SGT", "EQ"])]
         if c < 0.8:
